@@ -96,8 +96,8 @@ def split_mps_tensor(
     )
     u_mat, s_vec, v_mat = robust_svd(theta_mat, full_matrices=False)
 
-    # Handled by dynamic TDVP
-    keep = min(len(s_vec), sim_params.max_bond_dim) if not dynamic else len(s_vec)
+    # The bond cap applies to every split (dynamic TDVP only decides *where* two-site updates happen)
+    keep = min(len(s_vec), sim_params.max_bond_dim)
 
     if sim_params.trunc_mode == "discarded_weight":
         discard = 0.0
@@ -107,7 +107,7 @@ def split_mps_tensor(
             next_discard = discard + s * s
             if next_discard > sim_params.threshold:
                 # don't discard this one; discard only the ones already counted
-                keep = max(len(s_vec) - idx, min_keep)
+                keep = max(min(len(s_vec) - idx, keep), min_keep)
                 break
             discard = next_discard
     elif sim_params.trunc_mode == "relative":
